@@ -1092,7 +1092,10 @@ class SInt:
             sol = z3.Solver()
             sol.set("timeout", p.branch_timeout_ms)
             sol.add(*p.constraints())
-            if str(sol.check()) != "sat":
+            rs = str(sol.check())
+            if rs == "unknown":
+                raise UnwindingFailure("concretize: solver gave no verdict")
+            if rs != "sat":
                 raise PathAbort("concretize: no model")
             v = sol.model().eval(self.t, model_completion=True).as_long()
             if p.branch(self.t == v):
